@@ -9,6 +9,7 @@ import (
 	"net/http"
 	"net/http/httptest"
 	"runtime/debug"
+	"strconv"
 	"strings"
 	"time"
 
@@ -111,6 +112,12 @@ func (e *webEnv) serve(req *http.Request) (resp httpResp) {
 	resp.Code = rec.Code
 	resp.Header = rec.Header()
 	resp.Body = rec.Body.Bytes()
+	if cl := resp.Header.Get("Content-Length"); cl != "" && resp.Panic == "" && req.Method != "HEAD" {
+		// a real connection would cut the body short or fail the request
+		if n, err := strconv.Atoi(cl); err != nil || n != len(resp.Body) {
+			e.c.Failf("http/content-length-differs-from-body", "%s: the response announces Content-Length %s but its body has %d bytes", resp.Line, cl, len(resp.Body))
+		}
+	}
 	e.last = resp
 	e.c.Logf("http %s -> %s", resp.Line, resp)
 	return resp
